@@ -20,10 +20,11 @@ static std::vector<std::string> pick_texts(const std::string &corpus, size_t wan
 static void setup(Runner &r, const Tier &t) {
     g_thor = t.thorough; g_cases.clear(); g_fonts.clear(); g_texts.clear();
     struct F { std::string font, corpus; }; std::vector<F> fs = { { "Padauk.ttf", "my_HeadwordSyllables.txt" }, { "Scheherazadegr.ttf", "udhr_arb.txt" }, { gen_dir() + "/s_full.ttf", "" } };
-    { fs.push_back({ "charis_r_gr.ttf", "udhr_yor.txt" }); fs.push_back({ "Awami_test.ttf", "awami_tests.txt" }); fs.push_back({ gen_dir() + "/s_full_rtl.ttf", "" }); fs.push_back({ "Annapurnarc2.ttf", "udhr_nep.txt" }); fs.push_back({ gen_dir() + "/s_full_le.ttf", "" }); fs.push_back({ gen_dir() + "/s_full_step.ttf", "" }); fs.push_back({ gen_dir() + "/s_full_rtl_le.ttf", "" }); }
+    { fs.push_back({ "charis_r_gr.ttf", "udhr_yor.txt" }); fs.push_back({ "Awami_test.ttf", "awami_tests.txt" }); fs.push_back({ gen_dir() + "/s_full_rtl.ttf", "" }); fs.push_back({ "Annapurnarc2.ttf", "udhr_nep.txt" }); fs.push_back({ gen_dir() + "/s_full_le.ttf", "" }); fs.push_back({ gen_dir() + "/s_full_step.ttf", "" }); fs.push_back({ gen_dir() + "/s_full_nojust.ttf", "" }); fs.push_back({ "PigLatinBenchmark_v3.ttf", "" });   /* no justification levels and more glyphs than characters (insertions) */ fs.push_back({ gen_dir() + "/s_full_rtl_le.ttf", "" }); }
     for (auto &f : fs) {
         g_fonts.push_back(f.font);
-        if (f.corpus.empty()) g_texts.push_back({ "ab c de", "a\xCC\x81 b c\xCC\x80\xCC\x81 d", "cc ab", "ab c\xCC\x81\xCC\x80" });
+        if (f.font.find("PigLatin") != std::string::npos) g_texts.push_back({ "hello", "hello world", "pig latin" });
+        else if (f.corpus.empty()) g_texts.push_back({ "ab c de", "a\xCC\x81 b c\xCC\x80\xCC\x81 d", "cc ab", "ab c\xCC\x81\xCC\x80" });
         else g_texts.push_back(pick_texts(f.corpus, t.thorough ? 6 : 3, 5, t.thorough ? 12 : 9));
         // a line that ends in marks (exercises reverseSlots' mark handling at a line end)
         if (f.font == "Awami_test.ttf") g_texts.back().push_back("\xd9\xbe\xd8\xb3\xd8\xaa\xd9\x8a\xd9\x94 | \xd8\xba\xd9\x84\xd9\x8a\xd9\x94");
